@@ -163,7 +163,15 @@ func unstarted(state, body []byte) bool {
 		!bytes.HasSuffix(lines[1], []byte("(...)")) && bytes.HasPrefix(lines[3], []byte("created by "))
 }
 
-func HelpersParked(createdBy string) (int, string) {
+func HelpersParked(createdBy string) (int, string) { return helpers(createdBy, "") }
+
+// HelpersInside counts the goroutines of the bubble - in ANY state, running ones included - that were created by a
+// function whose name contains createdBy and have a frame whose function name contains frame on their stack: helper
+// goroutines that are still at work in that function (a goroutine that is merely on its way out, between its last
+// signal and its return, has no such frame and is not counted).
+func HelpersInside(createdBy, frame string) (int, string) { return helpers(createdBy, frame) }
+
+func helpers(createdBy, frame string) (int, string) {
 	bp := stackBufPool.Get().(*[]byte)
 	defer stackBufPool.Put(bp)
 	n := runtime.Stack(*bp, true)
@@ -208,10 +216,13 @@ func HelpersParked(createdBy string) (int, string) {
 			continue
 		}
 		parked := bytes.HasSuffix(x.state, []byte("(durable)")) || bytes.HasPrefix(x.state, []byte("sync.Mutex.Lock")) || bytes.HasPrefix(x.state, []byte("sync.RWMutex."))
-		if !parked && !unstarted(x.state, x.body) {
+		if frame == "" && !parked && !unstarted(x.state, x.body) {
 			continue
 		}
 		if i := bytes.LastIndex(x.body, []byte("created by ")); i >= 0 && bytes.Contains(x.body[i:], []byte(createdBy)) {
+			if frame != "" && !bytes.Contains(x.body[:i], []byte(frame)) {
+				continue
+			}
 			count++
 			if first == "" {
 				first = string(x.body)
